@@ -15,7 +15,7 @@ Trace == ndJsonDeserialize(IOEnv.TRACE)
 VARIABLES l, T, st, failed
 vars == <<l, T, st, failed>>
 
-NoTree == [n |-> 1, parent |-> <<0>>, caps |-> <<FALSE>>, lays |-> <<<<[x |-> 0, y |-> 0, w |-> 0, h |-> 0, z |-> 0, hid |-> FALSE]>>>>]
+NoTree == [n |-> 1, pars |-> <<<<0>>>>, caps |-> <<FALSE>>, lays |-> <<<<[x |-> 0, y |-> 0, w |-> 0, h |-> 0, z |-> 0, hid |-> FALSE]>>>>]
 
 Init == l = 1 /\ T = NoTree /\ st = St0 /\ failed = FALSE
 
@@ -31,28 +31,30 @@ Why(e) ==
 
 Apply(e) ==
   CASE e.ev = "step"  -> StepNext(st, e)
-    [] e.ev = "frame" -> FrameNext(st, e)
+    [] e.ev = "frame" -> FrameNext(T, st, e)
     [] e.ev = "exit"  -> [st EXCEPT !.over = TRUE]
     [] OTHER          -> st
 
 (* context for signatures: some widget on the way has two children under the point *)
-RECURSIVE Ambiguous(_, _, _, _)
-Ambiguous(L, w, px, py) ==
-  LET kids == {k \in 1..T.n : T.parent[k] = w /\ In(L[k], px, py)}
+RECURSIVE Ambiguous(_, _, _, _, _)
+Ambiguous(par, L, w, px, py) ==
+  LET kids == {k \in 1..T.n : par[k] = w /\ In(L[k], px, py)}
   IN IF kids = {} THEN FALSE
      ELSE Cardinality(kids) > 1 \/
           (LET top == CHOOSE k \in kids : \A j \in kids : OnTop(L, k, j)
-           IN Ambiguous(L, top, px - L[top].x, py - L[top].y))
-Overlap(L, p) == p # <<>> /\ HitChain(T, L, p[1], p[2]) # <<>> /\ Ambiguous(L, 1, p[1], p[2])
+           IN Ambiguous(par, L, top, px - L[top].x, py - L[top].y))
+Overlap(k, p) == p # <<>> /\ HitChain(At(T, k), T.lays[k], p[1], p[2]) # <<>> /\ Ambiguous(T.pars[k], T.lays[k], 1, p[1], p[2])
 
 Expect(e) ==
   CASE e.ev = "step" -> [chain |-> StepChain(T, st, e), focus |-> st.focus, hover |-> st.hover,
                          route |-> IF StepChain(T, st, e) = <<>> \/ Undrawn(T, st, e) THEN <<>> ELSE Route(T, StepChain(T, st, e)),
                          moved |-> st.moved, tfin |-> st.tfin, undrawn |-> Undrawn(T, st, e),
-                         overlap |-> e.in.t = "mouse" /\ Overlap(T.lays[st.lay], <<e.in.x, e.in.y>>)]
+                         relaid |-> st.relaid,
+                         overlap |-> e.in.t = "mouse" /\ Overlap(st.lay, <<e.in.x, e.in.y>>)]
     [] e.ev = "frame" -> [focus |-> st.focus, hover |-> st.hover, ptr |-> st.ptr, redraw |-> st.redraw, refresh |-> st.refresh,
-                          moved |-> st.moved, tfin |-> st.tfin, overlap |-> Overlap(T.lays[e.lay], st.ptr),
-                          undrawn |-> ~Present(T, T.lays[e.lay], st.focus)]
+                          moved |-> st.moved, tfin |-> st.tfin, overlap |-> Overlap(e.lay, st.ptr),
+                          relaid |-> st.relaid \/ T.pars[e.lay] # T.pars[st.lay],
+                          undrawn |-> ~Present(At(T, e.lay), T.lays[e.lay], st.focus)]
     [] OTHER -> [focus |-> st.focus]
 
 Next ==
@@ -60,7 +62,7 @@ Next ==
   /\ l' = l + 1
   /\ LET e == Trace[l] IN
      IF e.ev = "reset" THEN
-        /\ T' = [n |-> e.n, parent |-> e.parent, caps |-> e.caps, lays |-> e.lays]
+        /\ T' = [n |-> e.n, pars |-> e.pars, caps |-> e.caps, lays |-> e.lays]
         /\ st' = St0
         /\ failed' = FALSE
      ELSE IF failed THEN UNCHANGED <<T, st, failed>>
